@@ -323,13 +323,17 @@ class spawn(SpawnBase):
         and SIGINT). '''
 
         self.flush()
-        with _wrap_ptyprocess_err():
-            # PtyProcessError may be raised if it is not possible to terminate
-            # the child.
-            self.ptyproc.close(force=force)
+        try:
+            with _wrap_ptyprocess_err():
+                # PtyProcessError may be raised if it is not possible to terminate
+                # the child.
+                self.ptyproc.close(force=force)
+        finally:
+            # Even when the child could not be terminated the file descriptor
+            # has been closed: do not keep its number, it may be reused.
+            self.child_fd = -1
+            self.closed = True
         self.isalive()  # Update exit status from ptyproc
-        self.child_fd = -1
-        self.closed = True
 
     def isatty(self):
         '''This returns True if the file descriptor is open and connected to a
